@@ -79,6 +79,19 @@ def _record_classes(record, classes: list) -> None:
             classes.append("region_span")
     if len(record.get_regions()) > 1:
         classes.append("regions_multiple")
+    # numbers that cross from one to two digits inside one cross-reference list
+    for cand in record.get_candidate_clusters():
+        numbers = [proto.get_protocluster_number() for proto in cand.protoclusters]
+        if min(numbers) <= 9 < max(numbers):
+            classes.append("cand_members_cross_digits")
+    for region in record.get_regions():
+        for numbers in ([c.get_candidate_cluster_number() for c in region.candidate_clusters],
+                        [sub.get_subregion_number() for sub in region.subregions]):
+            if numbers and min(numbers) <= 9 < max(numbers):
+                classes.append("region_members_cross_digits")
+    for label, areas in (("candidates", record.get_candidate_clusters()), ("regions", record.get_regions())):
+        if len(areas) >= 10:
+            classes.append(f"{label}_10_or_more")
     if record.get_regions():
         classes.append("regions")
     if any(len(m.location.parts) > 1 for m in record.get_modules()):
